@@ -15,7 +15,7 @@ RULE = (
 )
 REQUIRED = ["rt_bipartite_str_ids", "rt_bipartite_int_ids", "rt_strings", "rt_species_graph",
             "export_bipartite_checked", "export_species_checked", "from_str_checked",
-            "shared_pair_networks", "multi_digit_coeff_networks", "networks_with_id_equal_to_species_label", "networks_with_formula_like_labels"]
+            "shared_pair_networks", "multi_digit_coeff_networks", "networks_with_id_equal_to_species_label", "networks_with_formula_like_labels", "from_str_mixed_separator_spacing"]
 ASSUMPTIONS = [
     "labels follow the documented grammar; rule labels contain no whitespace",
     "species-graph round trip only claimed for networks whose reactions all have both sides; rules not compared there",
@@ -257,7 +257,7 @@ def check_from_str(ctx):
     from synkit.CRN.Hypergraph.rxn import RXNSide
 
     rng = ctx.rng
-    names = ["A", "B", "Fe", "Cl2", "X_1", "glc6p", "H2O"]
+    names = ["A", "B", "Fe", "Cl2", "X_1", "glc6p", "H2O", "E1S", "E2P", "e5a"]
     for _ in range(300 if ctx.quick else 5000):
         k = rng.randint(0, 4)
         want = {}
@@ -276,8 +276,15 @@ def check_from_str(ctx):
                 parts.append(f"{c}*{s}")
             else:
                 parts.append(f"{c}  {s}")
-        sep = rng.choice(["+", " + ", "  +  "])
-        txt = sep.join(parts) if parts else rng.choice(["", "∅", "  "])
+        sep = rng.choice(["+", " + ", "  +  ", None])
+        if sep is None and len(parts) >= 2:
+            # the separators of one side need not be written uniformly ("2A+B + C")
+            ctx.count("from_str_mixed_separator_spacing")
+            txt = parts[0]
+            for p_ in parts[1:]:
+                txt += rng.choice(["+", " + ", " +", "+ "]) + p_
+        else:
+            txt = (sep or " + ").join(parts) if parts else rng.choice(["", "∅", "  "])
         got = RXNSide.from_str(txt).to_dict()
         ctx.count("from_str_checked")
         if got != want:
